@@ -78,6 +78,7 @@ class SQLStorage(Storage):
 
     def delete(self, uid):
         self.session.query(PolicyModel).filter(PolicyModel.uid == uid).delete()
+        self.session.commit()
         log.info('Deleted Policy with UID=%s.', uid)
 
     def _get_filtered_cursor(self, inquiry, checker):
